@@ -6,7 +6,8 @@ Side-conditions of the TSC-conversion theorems (C05/C06 with `ClockSourceType::T
 `core/Rdtsc.h` and `Logger.h`: the constants and comparison operators are those of `Tsc.Params.code` (the record the theorems
 are stated for), the slot/version protocol stores the new base and only then bumps the version with `release`, and the
 statement shapes the model transcribes are still there. An edit that changes any of them (another lag bound, `>=` in the
-trigger, the version bumped first, the stale slot written, the conversion after the gate, a pop rule on another field …)
+trigger, the version bumped first, the stale slot written, the conversion after the gate, the gate chained as `else if` behind the TSC
+branch so that TSC loggers skip it, a pop rule on another field …)
 stops this file from compiling: a broken proof obligation; the check then relies on the correspondence stream and the
 harness oracles for a failing input.
 -/
@@ -28,7 +29,7 @@ theorem tsc_structure :
     Extracted.tscStructure =
       [("attemptLoop", true), ("ctorShape", true), ("readOrder", true), ("storeThenFlip", true), ("failureDoubles", true),
        ("tseShape", true), ("safeShape", true), ("fastAverage", true), ("intervalInit", true), ("twoSlots", true),
-       ("nsPerTickConst", true), ("convertBeforeGate", true), ("gateReturnsFalse", true), ("lazyClock", true),
+       ("nsPerTickConst", true), ("convertBeforeGate", true), ("gateForNonUser", true), ("gateReturnsFalse", true), ("lazyClock", true),
        ("popComparesStored", true), ("idleShape", true), ("frontendReadsRdtsc", true), ("rdtscIsIntrinsic", true)] := by
   decide
 
@@ -39,7 +40,7 @@ theorem C05Tsc_monotone_between_resyncs_extracted {sc : Int → Int} {ε : Int} 
       (o1.tsc ≤ o2.tsc → o1.value ≤ o2.value) ∧ (o2.tsc ≤ o1.tsc → o2.value ≤ o1.value)) := by
   rw [tsc_params_are_code]; exact C05Tsc_monotone_between_resyncs hs c ops
 
-/-- the F33 witnesses for the code as extracted -/
+/-- the F38 witnesses for the code as extracted -/
 theorem C05Tsc_backstep_witness_extracted :
     ((prun Extracted.tscParams sc1 { clock := wClock } wBackstep).written.map (fun e => (e.id, e.tsc, e.ts)))
       = [(1, 2002100, 1700000000001002100), (2, 2002150, 1700000000001001650)] := by
